@@ -15,11 +15,11 @@ import (
 func init() {
 	register(&propSpec{ID: "C15", Run: checkC15,
 		Explanation: "Both Node updates send the object freshly fetched with Get in the same call; between Get and Update the only stores rooted at that object target Spec.Taints (the slice header or one of its elements); the add path appends exactly one taint literal {Key: atlassian.com/escalator, Value: decimal Unix seconds of now, Effect: parameter if non-empty else NoSchedule} and is reachable only when a full search of the fetched object's taints found no such key; the delete path removes exactly one element at an index whose Key matched (swap-with-last + truncate-by-one, or splice) and returns right after its single Update; the reader parses base-10 int64 seconds into time.Unix(x, 0); Update is called from nowhere else; the effect passed at the taint site is the group's taint_effect.",
-		RuleText:    "R1 fresh object, R2 store census, R3 added taint literal, R4 no re-stamp, R5 delete idiom, R6 writer/reader agreement, R7 who-may-update, R8 a nil error is returned only after the Get (and, once issued, the Update) of the same call succeeded",
+		RuleText:    "R1 fresh object, R2 store census, R3 added taint literal, R4 no re-stamp, R5 delete idiom, R6 writer/reader agreement, R7 who-may-update, R8 a nil error is returned only after the Get (and, once issued, the Update) of the same call succeeded, R9 no repo type answers a method of the typed client itself (live Get)",
 		Assumptions: []string{"API-server semantics of Update (optimistic concurrency, admission mutation) and other actors re-tainting are not decided"}})
 	register(&propSpec{ID: "C14", Run: checkC14,
 		Explanation: "Each filter's boolean function, read off its return sites: the labelled-group pod filter returns true exactly under ¬DaemonSet ∧ (selector[key] present ∧ = value), or inside the full nested traversal of the nil-safely unwrapped required node-affinity terms under Key = key ∧ Operator = In ∧ some value = value — with no other condition and no early false; the default filter ⇔ ¬DaemonSet ∧ ¬static ∧ no selector ∧ (no affinity ∨ all three affinity kinds nil); the node filter ⇔ labels[key] present ∧ = value; PodIsDaemonSet / PodIsStatic are the documented predicates; the filtered listers append exactly the elements the filter accepts.",
-		RuleText:    "R1 labelled pod filter, R2 default pod filter, R3 node filter, R4 DaemonSet / static predicates, R5 listers",
+		RuleText:    "R1 labelled pod filter, R2 default pod filter, R3 node filter, R4 DaemonSet / static predicates, R5 listers, R6 lister wiring",
 		Assumptions: []string{"what the informer's field selector admits, matchFields and preferred affinities are outside the statement"}})
 }
 
@@ -224,6 +224,8 @@ func checkC15(ck *Check) {
 	ck.timeRoundTrip("C15.R6")
 	ck.writeConfirmed("C15.R8", a.AddTaint)
 	ck.writeConfirmed("C15.R8", a.DelTaint)
+	// R9 the Get is a read of the API server
+	ck.liveClient("C15.R9")
 }
 
 // addedTaint (C15.R3)
@@ -529,6 +531,8 @@ func (ck *Check) timeRoundTrip(rule string) {
 
 func checkC14(ck *Check) {
 	ck.filterPredicates(func(n int) string { return fmt.Sprintf("C14.R%d", n) })
+	// R6 the group listers are built from exactly these filters, unwrapped (decided as C12.R3)
+	ck.listerWiring("C14.R6")
 }
 
 // filterPredicates decides the boolean function of each pod / node filter and of the filtered
@@ -548,15 +552,22 @@ func (ck *Check) filterPredicates(rule func(n int) string) {
 		}
 		return f.AnonFuncs[0]
 	}
+	hasClosure := func(name string) bool {
+		f := sp.Func(name)
+		return f != nil && len(f.AnonFuncs) == 1
+	}
 	isDS := kp.Func("PodIsDaemonSet")
 	isStatic := kp.Func("PodIsStatic")
 	if isDS == nil || isStatic == nil {
 		ck.lost(rule(4), "PodIsDaemonSet/PodIsStatic", "not found")
 		return
 	}
-	// R1
-	if fn := closureOf("NewPodAffinityFilterFunc"); fn != nil {
-		ck.affinityFilter(rule(1), fn, isDS, ck.A.Unwrap)
+	// R1: decided on the quantified reading of whatever the constructor returns; the structural
+	// rule remains as the fallback (it names the offending branch)
+	if !ck.affinityFilterQ(rule(1), sp.Func("NewPodAffinityFilterFunc"), isDS, ck.A.Unwrap, hasClosure("NewPodAffinityFilterFunc")) {
+		if fn := closureOf("NewPodAffinityFilterFunc"); fn != nil {
+			ck.affinityFilter(rule(1), fn, isDS, ck.A.Unwrap)
+		}
 	}
 	// R2
 	if fn := closureOf("NewPodDefaultFilterFunc"); fn != nil {
@@ -581,7 +592,8 @@ func (ck *Check) filterPredicates(rule func(n int) string) {
 		}
 	}
 	// R3
-	if fn := closureOf("NewNodeLabelFilterFunc"); fn != nil {
+	if ck.nodeLabelFilterQ(rule(3), sp.Func("NewNodeLabelFilterFunc"), hasClosure("NewNodeLabelFilterFunc")) {
+	} else if fn := closureOf("NewNodeLabelFilterFunc"); fn != nil {
 		ctx := ck.P.NewCtx(fn)
 		node := paramTerm(fn.Params[0])
 		got := ctx.returnFormula(0)
@@ -875,7 +887,11 @@ func (ck *Check) affinityFilter(rule string, fn, isDS, unwrap *ssa.Function) {
 		}
 	}
 	ck.cond(okv, rule, "affinity-filter", ck.P.position(fn.Pos()), funcID(fn), "labelled group: counts ⇔ ¬DaemonSet ∧ (selector[key] = value ∨ ∃ required term ∃ expression: Key = key ∧ Operator = In ∧ ∃ value = label value)", joined, strings.Join(why, "; "))
-	// unwrap: returns the terms only when all three pointers are non-nil, else nil
+	ck.unwrapShape(rule, unwrap)
+}
+
+// unwrapShape: unwrapNodeSelectorTerms returns the terms only when all three pointers are non-nil, else nil
+func (ck *Check) unwrapShape(rule string, unwrap *ssa.Function) {
 	{
 		uctx := ck.P.NewCtx(unwrap)
 		p := paramTerm(unwrap.Params[0])
@@ -959,8 +975,12 @@ func (ck *Check) filteredLister(rule string, fn *ssa.Function) {
 
 // filterCollect: slice is `for x in L { if f(x) { acc = append(acc, x) } }` starting empty — built
 // in fn, or by a repo helper fn calls for it. Returns L and f as terms of ctx's vocabulary.
-func (ck *Check) filterCollect(fn *ssa.Function, ctx *Ctx, slice ssa.Value, depth int) (*Term, *Term, string) {
+func (ck *Check) filterCollect(fn *ssa.Function, ctx *Ctx, slice ssa.Value, depth int, given ...map[*ssa.Parameter]ssa.Value) (*Term, *Term, string) {
 	pr := sliceProv(slice)
+	var argOf map[*ssa.Parameter]ssa.Value
+	if len(given) > 0 {
+		argOf = given[0]
+	}
 	if len(pr.Appends) == 0 && len(pr.Roots) == 1 && depth < 2 {
 		if call, ok := pr.Roots[0].(*ssa.Call); ok {
 			if h := call.Common().StaticCallee(); h != nil && ck.P.inRepo(h) && h.Blocks != nil && h.Signature.Results().Len() == 1 {
@@ -970,13 +990,19 @@ func (ck *Check) filterCollect(fn *ssa.Function, ctx *Ctx, slice ssa.Value, dept
 				}
 				ch := ctx.child(h, call, args)
 				ch.depth = 0
+				pm := map[*ssa.Parameter]ssa.Value{}
+				for i, av := range call.Common().Args {
+					if i < len(h.Params) {
+						pm[h.Params[i]] = av
+					}
+				}
 				var over, filter *Term
 				for _, b := range h.Blocks {
 					ret, ok := b.Instrs[len(b.Instrs)-1].(*ssa.Return)
 					if !ok {
 						continue
 					}
-					o, f, w := ck.filterCollect(h, ch, ret.Results[0], depth+1)
+					o, f, w := ck.filterCollect(h, ch, ret.Results[0], depth+1, pm)
 					if o == nil {
 						return nil, nil, "in " + funcID(h) + ": " + w
 					}
@@ -993,6 +1019,13 @@ func (ck *Check) filterCollect(fn *ssa.Function, ctx *Ctx, slice ssa.Value, dept
 		return nil, nil, ""
 	}
 	for _, root := range pr.Roots {
+		// the accumulator a helper is handed: what the call passes
+		if prm, ok := root.(*ssa.Parameter); ok && argOf != nil && argOf[prm] != nil {
+			root = argOf[prm]
+		}
+		if k, isConst := root.(*ssa.Const); isConst && k.IsNil() {
+			continue
+		}
 		if !makeSliceEmpty(root) {
 			if ms, ok := root.(*ssa.MakeSlice); ok {
 				if k, ok := ms.Len.(*ssa.Const); ok && k.Int64() == 0 {
@@ -1139,6 +1172,36 @@ func (ck *Check) nodeListImmutability(rule string) {
 		switch x := v.(type) {
 		case *ssa.Parameter:
 			if isNodeList(x.Type()) {
+				// an accumulator handed in by the callers (nil, or a list they made themselves) is theirs
+				if pf := x.Parent(); pf != nil && len(seen) < 12 {
+					idx := -1
+					for i, q := range pf.Params {
+						if q == x {
+							idx = i
+						}
+					}
+					sites, shared := 0, ""
+					for _, cf := range ck.P.callers[pf] {
+						for _, ci := range callsTo(cf, pf) {
+							if idx < 0 || idx >= len(ci.Common().Args) {
+								continue
+							}
+							sites++
+							if r := sharedRoot(ci.Common().Args[idx], seen); r != "" && shared == "" {
+								shared = r
+							}
+						}
+					}
+					taken := false
+					for _, g := range ck.P.addressTaken() {
+						if g == pf {
+							taken = true
+						}
+					}
+					if sites > 0 && shared == "" && !taken {
+						return ""
+					}
+				}
 				return "parameter " + x.Name()
 			}
 		case *ssa.Slice:
@@ -1988,4 +2051,319 @@ func (ck *Check) existsSummaryLibrary(fn *ssa.Function) *existsSum {
 		sum = &existsSum{Fn: fn, List: list, Field: fname, Lit: lit}
 	}
 	return sum
+}
+
+// stringParams: the (label key, label value) parameters of a filter constructor, by position.
+func stringParams(bf *builtFilter) (*Term, *Term, bool) {
+	var out []*Term
+	for _, p := range bf.Params {
+		if b, ok := p.Typ.Underlying().(*types.Basic); ok && b.Kind() == types.String {
+			out = append(out, p)
+		}
+	}
+	if len(out) != 2 {
+		return nil, nil, false
+	}
+	return out[0], out[1], true
+}
+
+// affinityFilterQ (C14.R1 / C12.R7): the predicate NewPodAffinityFilterFunc(k, v) returns is
+// ¬DaemonSet(p) ∧ (selector[k] present ∧ = v ∨ ∃ t ∈ required(p) ∃ x ∈ t.MatchExpressions:
+// x.Key = k ∧ x.Operator = In ∧ ∃ w ∈ x.Values: w = v), however it is written. Returns false
+// (and reports nothing) when that could not be shown and a structural fallback exists.
+func (ck *Check) affinityFilterQ(rule string, cons, isDS, unwrap *ssa.Function, haveFallback bool) bool {
+	required := "labelled group: counts ⇔ ¬DaemonSet ∧ (selector[key] = value ∨ ∃ required term ∃ expression: Key = key ∧ Operator = In ∧ ∃ value = label value)"
+	bf, why := ck.builtFilterOf(cons)
+	var okv bool
+	var got string
+	if bf != nil && unwrap != nil {
+		k, v, okp := stringParams(bf)
+		if !okp {
+			why = "the constructor does not take (label key, label value)"
+		} else {
+			pod := bf.Obj
+			ds := ck.qExpand(bf.Ctx, Atom(&Term{Kind: "call", Name: funcID(isDS), Fn: isDS, Obj: isDS.Object(), Args: []*Term{pod}}), 0)
+			if bf.Ctx.inlinable(isDS) {
+				ds = boolResultFormula(bf.Ctx, isDS, []*Term{pod}, 0)
+			}
+			lk := &Term{Kind: "lookup", Args: []*Term{ck.nodeField(pod, "Spec", "NodeSelector"), k}}
+			selOK := Atom(&Term{Kind: "extract", Name: "1", Args: []*Term{lk}})
+			selEq := cmpFormula(token.EQL, &Term{Kind: "extract", Name: "0", Args: []*Term{lk}}, v)
+			terms := &Term{Kind: "call", Name: funcID(unwrap), Fn: unwrap, Obj: unwrap.Object(), Args: []*Term{pod}, Typ: unwrap.Signature.Results().At(0).Type()}
+			t1 := boundElem(terms)
+			exprs := ck.nodeField(t1, "MatchExpressions")
+			x := boundElem(exprs)
+			vals := ck.nodeField(x, "Values")
+			w := boundElem(vals)
+			inner := And(
+				cmpFormula(token.EQL, ck.nodeField(x, "Key"), k),
+				cmpFormula(token.EQL, ck.nodeField(x, "Operator"), &Term{Kind: "const", Name: `"In"`}),
+				mkExists(vals, cmpFormula(token.EQL, w, v)))
+			aff := mkExists(terms, mkExists(exprs, inner))
+			want := And(Not(ds), Or(And(selOK, selEq), aff))
+			// the plain index form of the selector test: a missing key reads "", never the label value
+			wantIdx := And(Not(ds), Or(cmpFormula(token.EQL, lk, v), aff))
+			got = bf.Got.String()
+			eq, w1, err := Equivalent(bf.Got, want)
+			if err != nil {
+				why = err.Error()
+			} else if eq {
+				okv = true
+			} else if eq2, _, _ := Equivalent(bf.Got, wantIdx); eq2 {
+				okv = true
+			} else {
+				why = w1
+			}
+		}
+	}
+	if !okv && haveFallback {
+		return false
+	}
+	pos := ""
+	fid := "NewPodAffinityFilterFunc"
+	if cons != nil {
+		pos, fid = ck.P.position(cons.Pos()), funcID(cons)
+	}
+	ck.cond(okv, rule, "affinity-filter", pos, fid, required, got, why)
+	if okv && unwrap != nil {
+		ck.unwrapShape(rule, unwrap)
+	}
+	return true
+}
+
+// nodeLabelFilterQ (C14.R3): NewNodeLabelFilterFunc(k, v) returns n ↦ labels[k] present ∧ = v.
+func (ck *Check) nodeLabelFilterQ(rule string, cons *ssa.Function, haveFallback bool) bool {
+	bf, why := ck.builtFilterOf(cons)
+	okv := false
+	got := ""
+	if bf != nil {
+		k, v, okp := stringParams(bf)
+		if !okp {
+			why = "the constructor does not take (label key, label value)"
+		} else {
+			lk := &Term{Kind: "lookup", Args: []*Term{ck.nodeField(bf.Obj, "ObjectMeta", "Labels"), k}}
+			present := Atom(&Term{Kind: "extract", Name: "1", Args: []*Term{lk}})
+			equal := cmpFormula(token.EQL, &Term{Kind: "extract", Name: "0", Args: []*Term{lk}}, v)
+			got = bf.Got.String()
+			eq, w1, err := Equivalent(bf.Got, And(present, equal))
+			switch {
+			case err != nil:
+				why = err.Error()
+			case eq:
+				okv = true
+			default:
+				why = w1
+			}
+		}
+	}
+	if !okv && haveFallback {
+		return false
+	}
+	pos, fid := "", "NewNodeLabelFilterFunc"
+	if cons != nil {
+		pos, fid = ck.P.position(cons.Pos()), funcID(cons)
+	}
+	ck.cond(okv, rule, "node-filter", pos, fid, "node belongs ⇔ labels[key] present ∧ = value", got, why)
+	return true
+}
+
+// liveClient (C15.R9, C01 / C03 by sharing): "fetch the latest version" is a read of the API
+// server only if the typed client the writers are handed is client-go's. The repo may wrap a
+// clientset (Client embeds kubernetes.Interface) but must not answer any method of the typed
+// client interfaces itself: a repo-declared CoreV1 / Nodes / Get / Update … can serve the
+// informer cache's copy (stale: the exists-test misses a taint that is already there and a second
+// time stamp is written) or drop a write. Decided over the types: (a) no shipped named type has
+// in its method set a method of these interfaces that is declared in the repo, (b) no shipped
+// function converts a repo type to one of them.
+func (ck *Check) liveClient(rule string) {
+	guarded := map[string][]string{
+		"k8s.io/client-go/kubernetes":               {"Interface"},
+		"k8s.io/client-go/kubernetes/typed/core/v1": {"CoreV1Interface", "NodeInterface", "PodInterface"},
+	}
+	var ifaces []*types.Named
+	seenPkg := map[*types.Package]bool{}
+	var visit func(p *types.Package)
+	visit = func(p *types.Package) {
+		if p == nil || seenPkg[p] {
+			return
+		}
+		seenPkg[p] = true
+		if names, ok := guarded[p.Path()]; ok {
+			for _, n := range names {
+				if tn, ok := p.Scope().Lookup(n).(*types.TypeName); ok {
+					if nt, ok := tn.Type().(*types.Named); ok {
+						ifaces = append(ifaces, nt)
+					}
+				}
+			}
+		}
+		for _, q := range p.Imports() {
+			visit(q)
+		}
+	}
+	for _, pk := range ck.P.Pkgs {
+		if ck.P.isShippedPkg(pk.Types) {
+			visit(pk.Types)
+		}
+	}
+	if len(ifaces) < 3 {
+		ck.lost(rule, "typed client interfaces", fmt.Sprintf("only %d of kubernetes.Interface, CoreV1Interface, NodeInterface, PodInterface found in the import graph", len(ifaces)))
+		return
+	}
+	ntypes, nconv, bad := 0, 0, 0
+	reported := map[string]bool{}
+	for _, pk := range ck.P.Pkgs {
+		if !ck.P.isShippedPkg(pk.Types) {
+			continue
+		}
+		sc := pk.Types.Scope()
+		for _, name := range sc.Names() {
+			tn, ok := sc.Lookup(name).(*types.TypeName)
+			if !ok || tn.IsAlias() {
+				continue
+			}
+			nt, ok := tn.Type().(*types.Named)
+			if !ok {
+				continue
+			}
+			if _, isIface := nt.Underlying().(*types.Interface); isIface {
+				continue
+			}
+			ntypes++
+			for _, recv := range []types.Type{nt, types.NewPointer(nt)} {
+				ms := types.NewMethodSet(recv)
+				for _, it := range ifaces {
+					iface := it.Underlying().(*types.Interface)
+					if !types.Implements(recv, iface) {
+						continue
+					}
+					for i := 0; i < iface.NumMethods(); i++ {
+						m := iface.Method(i)
+						sel := ms.Lookup(m.Pkg(), m.Name())
+						if sel == nil {
+							continue
+						}
+						if f, ok := sel.Obj().(*types.Func); ok && ck.P.isShippedPkg(f.Pkg()) {
+							k := typeName(nt) + "." + m.Name()
+							if reported[k] {
+								continue
+							}
+							reported[k] = true
+							// a pass-through (instrumentation around the embedded client's own answer, or another
+							// wrapper of the same kind) changes nothing the writers can observe
+							if ck.passThroughMethod(f, ifaces) {
+								continue
+							}
+							bad++
+							ck.fail(rule, fmt.Sprintf("client-method:%s.%s", typeName(nt), m.Name()), ck.P.position(f.Pos()), typeName(nt), "no repo type answers a method of the typed Kubernetes client itself (wrappers only embed client-go's)", typeName(it)+"."+m.Name()+" is declared by "+typeName(nt),
+								"the taint writers' Get / Update may not reach the API server: a cached Get misses an existing taint and a second time stamp is written; foreign changes are overwritten")
+						}
+					}
+				}
+			}
+		}
+	}
+	for _, fn := range ck.P.Funcs {
+		for _, b := range fn.Blocks {
+			for _, in := range b.Instrs {
+				mi, ok := in.(*ssa.MakeInterface)
+				if !ok {
+					continue
+				}
+				target := false
+				for _, it := range ifaces {
+					if types.Identical(mi.Type(), it) {
+						target = true
+					}
+				}
+				if !target {
+					continue
+				}
+				nconv++
+				xt := mi.X.Type()
+				if pt, ok := xt.(*types.Pointer); ok {
+					xt = pt.Elem()
+				}
+				if nt, ok := xt.(*types.Named); ok && nt.Obj() != nil && ck.P.isShippedPkg(nt.Obj().Pkg()) {
+					// a repo wrapper that only embeds is fine: its methods were examined above
+					continue
+				}
+				if _, ok := xt.(*types.Named); !ok {
+					bad++
+					ck.fail(rule, funcID(fn)+"/"+ck.P.siteKeyInstr(mi), ck.P.instrPos(mi), funcID(fn), "values converted to the typed client interfaces are client-go's or repo wrappers that embed them", xt.String(), "an unnamed local type stands in for the typed client")
+				}
+			}
+		}
+	}
+	ck.Stats[rule+" shipped named types examined"] = ntypes
+	ck.Stats[rule+" conversions to client interfaces"] = nconv
+	if bad == 0 {
+		ck.ok(rule, "typed-client/live", "", "", "no repo type answers a method of the typed Kubernetes client itself (wrappers only embed client-go's)", fmt.Sprintf("%d named types, %d interfaces, %d conversions examined", ntypes, len(ifaces), nconv))
+	}
+	ck.floor(rule, "shipped named types examined", ntypes, 10)
+}
+
+// passThroughMethod: every return of the repo method f hands back, unchanged and in order, the
+// results of the same-named method invoked on a typed-client interface value (the embedded
+// client), or a repo wrapper converted to a typed-client interface (whose methods are held to the
+// same rule).
+func (ck *Check) passThroughMethod(f *types.Func, ifaces []*types.Named) bool {
+	var fn *ssa.Function
+	for _, g := range ck.P.Funcs {
+		if g.Object() == types.Object(f) {
+			fn = g
+		}
+	}
+	if fn == nil || fn.Blocks == nil {
+		return false
+	}
+	isGuarded := func(t types.Type) bool {
+		for _, it := range ifaces {
+			if types.Identical(t, it) {
+				return true
+			}
+		}
+		return false
+	}
+	nret := 0
+	for _, b := range fn.Blocks {
+		r, ok := b.Instrs[len(b.Instrs)-1].(*ssa.Return)
+		if !ok {
+			continue
+		}
+		nret++
+		if len(r.Results) == 1 {
+			switch x := r.Results[0].(type) {
+			case *ssa.Call:
+				if x.Common().IsInvoke() && x.Common().Method.Name() == f.Name() && isGuarded(x.Common().Value.Type()) {
+					continue
+				}
+			case *ssa.MakeInterface:
+				xt := x.X.Type()
+				if pt, ok := xt.(*types.Pointer); ok {
+					xt = pt.Elem()
+				}
+				if nt, ok := xt.(*types.Named); ok && nt.Obj() != nil && ck.P.isShippedPkg(nt.Obj().Pkg()) && isGuarded(x.Type()) {
+					continue
+				}
+			}
+			return false
+		}
+		var src *ssa.Call
+		for i, rv := range r.Results {
+			ex, ok := rv.(*ssa.Extract)
+			if !ok || ex.Index != i {
+				return false
+			}
+			c, ok := ex.Tuple.(*ssa.Call)
+			if !ok || (src != nil && src != c) {
+				return false
+			}
+			src = c
+		}
+		if src == nil || !src.Common().IsInvoke() || src.Common().Method.Name() != f.Name() || !isGuarded(src.Common().Value.Type()) {
+			return false
+		}
+	}
+	return nret > 0
 }
